@@ -260,7 +260,7 @@ func drawFault(rt *rapid.T, kinds []string, nsteps, ntx int) Fault {
 		// the context is cancelled at the At-th log call made on the Stream goroutine: a cancellation
 		// between any two steps of the parser (e.g. after it took a commit event, before the hand-over)
 		f.At = rapid.IntRange(1, 3*nsteps+4).Draw(rt, "log_call_at")
-	case f.Kind == "err_handshake" || f.Kind == "err_query":
+	case f.Kind == "err_handshake" || f.Kind == "err_query" || f.Kind == "dump_write_fails":
 	default:
 		f.At = rapid.IntRange(1, 2).Draw(rt, "mapper_at")
 		f.Sub = rapid.SampledFrom([]int{-1, 1, -100, 3}).Draw(rt, "col_delta")
@@ -287,6 +287,8 @@ func faultAttempt(ss *session, l *hist.Layout, spec AttemptSpec) (attempt, func(
 		at.plan = &fakemaster.ConnPlan{HandshakeErr: fakemaster.ErrPacket(1040, "08004", "Too many connections")}
 	case f.Kind == "err_query":
 		at.plan = &fakemaster.ConnPlan{QueryErr: fakemaster.ErrPacket(1227, "42000", "Access denied; you need (at least one of) the SUPER privilege(s) for this operation")}
+	case f.Kind == "dump_write_fails":
+		cleanup = failDumpWrite()
 	case isMasterFault(f.Kind):
 		at.mutate = applyFault(l, f)
 	case f.Kind == "cancel_out":
